@@ -9,9 +9,23 @@ import (
 // interface I<j>.
 const TIface = 100
 
-func IsIface(t int) bool { return t >= TIface }
+// TSlice+i is the slice type []*K<i> used as the *element* type of a value
+// group (members that are themselves slices, possibly empty or nil). Only
+// templates produce it, and only in group keys.
+const TSlice = 200
+
+// SepSerial separates the members of such a group in serial lists: each
+// member is SepSerial followed by the serials of its elements.
+const SepSerial = -2
+
+func IsIface(t int) bool { return t >= TIface && t < TSlice }
+
+func IsSliceT(t int) bool { return t >= TSlice }
 
 func TypeName(t int) string {
+	if IsSliceT(t) {
+		return fmt.Sprintf("[]*sim.K%d", t-TSlice)
+	}
 	if IsIface(t) {
 		return fmt.Sprintf("sim.I%d", t-TIface)
 	}
